@@ -551,6 +551,14 @@ def scenarios(ctx):
     add('inplace-empty', {'a.js': ''}, True, inputs=['a.js'], output='a.js')
     add('inplace-big', {'a.js': big}, True, inputs=['a.js'], output='a.js')
     add('inplace-failing', {'a.js': bad}, True, inputs=['a.js'], output='a.js')
+    # inputs that fail AFTER the minifier has already rewritten earlier bytes of its buffer (tag names lower-cased, numbers
+    # shortened): for a failing file the complete new output IS the original bytes (C19: "the destination receives the
+    # original bytes"), so the end state and every crash point are judged against them
+    add('inplace-html-latefail', {'i.html': c19.HTML_BAD[2]}, True, inputs=['i.html'], output='i.html')
+    add('inplace-json-latefail', {'j.json': c19.JSON_BAD[2]}, True, inputs=['j.json'], output='j.json')
+    add('dir-inplace-latefail-v', {'w/i.html': c19.HTML_BAD[2], 'w/j.json': c19.JSON_BAD[2], 'w/k.html': c19.HTML_BAD[1], 'w/ok.js': js},
+        True, inputs=['w/'], output='w/', r=True, v=True)
+    add('bundle-onto-source-latefail', {'a.json': c19.JSON_BAD[2], 'b.json': '[ 1.0 ]'}, True, inputs=['a.json', 'b.json'], output='b.json', b=True)
     add('inplace-hardlinked', {'a.js': js, 'keep.js': ('h', 'a.js')}, True, inputs=['a.js'], output='a.js')
     add('separate', {'a.js': js}, True, inputs=['a.js'], output='out.js')
     add('separate-overwrite', {'a.js': js, 'out.js': 'OLD OLD OLD OLD OLD OLD\n'}, True, inputs=['a.js'], output='out.js')
@@ -714,17 +722,20 @@ def run(ctx):
             continue
         seen = set()
         marks = ref['marks']
-        if quick and len(marks) > 36:
+        if quick and len(marks) > 30:
             # long sequential shapes: a seeded sample of the boundaries in the quick tier (all of them in thorough)
-            keep = set(ctx.rnd.sample(range(len(marks)), 36))
-            marks = [m for k, m in enumerate(marks) if k in keep]
+            keep = set(ctx.rnd.sample(range(len(marks)), 30))
+            marks = [m for k, m in enumerate(marks) if k in keep or m[0] in ('write', 'copy_file_range')]   # output writes always
         for name, o, args in marks:
             if (name, o) in seen:
                 continue
             seen.add((name, o))
             if s['seq'] or o <= (3 if quick else 8):
                 jobs.append((i, ('%s:signal=SIGKILL:when=%d' % (name, o),), 'kill'))
-            if name in INJECT_ERR and (s['seq'] or o <= 2) and (not quick or s['name'].startswith(('inplace', 'bundle-onto', 'dir-inplace-v', 'sync-v'))):
+            # a failing WRITE of the output (the close after it succeeds) in every in-place shape, also in quick: the decision
+            # "remove the backup or move it back" hangs on that error
+            if name in INJECT_ERR and (s['seq'] or o <= 2) and (not quick or name == 'write' or
+                                                               s['name'] in ('inplace-small', 'inplace-failing', 'bundle-onto-source', 'sync-v')):
                 jobs.append((i, ('%s:error=%s:when=%d' % (name, INJECT_ERR[name], o),), 'fault'))
     if not quick:
         # a failing write followed by a kill at every later boundary (restore path), for the in-place shapes
